@@ -106,6 +106,11 @@ def gen_probe(rng, tag, writer):
         nodes.append(['t', 'left open'])
         loaded['unclosed'] = True
     plain = capsets.simple_set(rng, tag + '.b', nlang=1, ncap=2, p_meta=0.1)
+    if rng.random() < 0.5:
+        # styles, but none called 'p', and captions without a class of their own
+        plain['styles'] = {'hl': {'color': 'yellow'}, 'speaker': {'font-family': 'Arial', 'italics': True}}
+        if 'p' not in (loaded.get('styles') or {}):
+            loaded['styles'] = dict(loaded.get('styles') or {}, p={'color': 'white', 'font-size': '1c'})
     while True:
         cfg = gen_writer_cfg(rng)
         if cfg['writer'] == writer:
@@ -118,10 +123,35 @@ def gen_probe(rng, tag, writer):
                     {'cfg': 0, 'set': 0, 'kw': {}, 'fresh': False}, {'cfg': 0, 'set': 1, 'kw': {}, 'fresh': False}]}
 
 
+def gen_raise_probe(rng, tag, writer):
+    """[shared writer: a set whose LAST caption carries a pixel layout (the write raises for lack of a video
+    size after earlier captions were processed), then an ordinary set, then both again]."""
+    bad = capsets.simple_set(rng, tag + '.a', nlang=rng.choice([1, 2]), ncap=3, p_meta=0.1)
+    px = {'origin': [[64.0, 'px'], [36.0, 'px']], 'extent': None, 'padding': [[5.0, 'px']] * 4, 'alignment': None}
+    bad['langs'][-1]['captions'][-1]['layout'] = px
+    if rng.random() < 0.5:
+        bad['langs'][-1]['layout'] = px
+    good = capsets.simple_set(rng, tag + '.b', nlang=rng.choice([1, 2]), ncap=2, p_meta=0.1)
+    while True:
+        cfg = gen_writer_cfg(rng)
+        if cfg['writer'] == writer:
+            break
+    for k in ('video_width', 'video_height', 'default_positioning'):
+        cfg['opts'].pop(k, None)
+    if writer != 'LegacyDFXPWriter':
+        cfg['opts']['relativize'] = True
+    return {'kind': 'history', 'sets': [bad, good], 'cfgs': [cfg],
+            'ops': [{'cfg': 0, 'set': 0, 'kw': {}, 'fresh': False}, {'cfg': 0, 'set': 1, 'kw': {}, 'fresh': False},
+                    {'cfg': 0, 'set': 0, 'kw': {}, 'fresh': False}, {'cfg': 0, 'set': 1, 'kw': {}, 'fresh': False}]}
+
+
 def cases(ctx):
     rng = ctx.rng('c09')
     if ctx.shard == 0:
         yield {'kind': 'suite'}
+    for k, writer in enumerate(ALL_WRITERS):
+        if ctx.mine(k * 17 + 5):
+            yield gen_raise_probe(rng, f'R{ctx.shard}.{k}', writer)
     for k, writer in enumerate(ALL_WRITERS):
         for rep in range(2 if ctx.tier == 'quick' else 20):
             if ctx.mine(k * 31 + rep):
